@@ -219,7 +219,7 @@ def main(prop: str, tier: str, classes=None) -> int:
     if prop == "C17":
         # keep_history = False
         for cn in ("GeneticAlgorithm", "DifferentialEvolution", "SelfCGP", "SHAGA"):
-            cfg = {"pop_size": 6, "iters": 4, "objective": "plateau", "keep_history": False, "seed": chk.seed + 3}
+            cfg = {"pop_size": 8, "iters": 4, "objective": "plateau", "keep_history": False, "seed": chk.seed + 3}
             extra.append(T.record(cn, cfg))
     for rec, diffs in results:
         chk.count(rec.cls_name)
